@@ -5,7 +5,10 @@ from .C19 import BASE
 
 RULE = ("sequential histories (25-55 API calls) over random layouts: 1-3 pools from 4 (/28-/29 pools, /28-/31 blocks), disabled pools, "
         "allowedUses, node and namespace selectors, 0-3 reservations (single addresses, /31, /30, whole blocks), strict affinity, "
-        "MaxBlocksPerHost 0-2 (global and per request), explicit pool requests, until exhaustion; plus TLC walks of I_IPAM with two "
+        "MaxBlocksPerHost 0-2 (global and per request), explicit pool requests, until exhaustion; one third of the layouts are "
+        "reservation-centred (one permissive pool, 2-3 reservations each covering part of a different block, listed in random "
+        "order, requests of 1-6 addresses that spill from a partly reserved block into the next); 12 directed strict-affinity "
+        "schedules in which a block changes owner between a request's read and its write; plus TLC walks of I_IPAM with two "
         "pools (one selecting only h2), a reserved address, strict affinity and a cap of 1; non-trivial = some auto-assign succeeded "
         "and some auto-assign got fewer addresses than it asked for")
 
@@ -20,6 +23,14 @@ def run(ctx):
     # the literal reading of the cap (all confirmed claims of the host, in whatever pool) is judged on the soft channel
     _ipam.handle_soft(ctx, P, kind="block-cap", classify=_ipam.classify_cap,
                       what="a host holds more confirmed affine blocks than the global MaxBlocksPerHost")
+    if ctx.violations:
+        return
+    # directed gate schedules (Dir_IPAM family "c20", strict affinity): the block changes owner between a strict
+    # auto-assign's read and its write (same-host release + foreign claim while the request is paused after loading
+    # the block); the CAS-conflict retry must not take an address from the block that is now somebody else's
+    _ipam.leg(ctx, BASE, "directed-strict-race",
+              gen={"module": "Dir_IPAM", "cfg": "Dir_c20.cfg", "workers": 1, "timeout": 600},
+              nontrivial=_ipam.overlapping, rule=RULE)
 
 
 def selftest(ctx):
